@@ -30,7 +30,8 @@ def touched (c : Cfg) : Action → Option (Nat × Sender)
   | .decide i ch => some (i, (c.s i).afterDecide ch)
   | .decInflight i => some (i, { c.s i with pc := .done })
   | .xmit g ak => some ((c.g g).eng.req.getD 0, { c.s ((c.g g).eng.req.getD 0) with acked := (c.s ((c.g g).eng.req.getD 0)).acked + b2n ak })
-  | .finish g r => some ((c.g g).eng.req.getD 0, { c.s ((c.g g).eng.req.getD 0) with done := some r })
+  | .finish g r => some ((c.g g).eng.req.getD 0,
+      { c.s ((c.g g).eng.req.getD 0) with done := some r, late := decide ((c.s ((c.g g).eng.req.getD 0)).pc ≠ .handed) })
   | _ => none
 
 theorem apply_s (c : Cfg) (a : Action) : (apply c a).s = match touched c a with
@@ -284,7 +285,7 @@ macro "scnt_fin" : tactic => `(tactic| (
 set_option hygiene false in
 /-- destructure a sender record into its fields -/
 macro "rec_cases" w:ident : tactic => `(tactic| (
-  rcases $w:ident with ⟨kind, pc, nblk, ep, gs, acked, done, wres, out, cancelled, dSent, dErr, dDrop, dAsyncErr⟩
+  rcases $w:ident with ⟨kind, pc, nblk, ep, gs, acked, done, late, wres, out, cancelled, dSent, dErr, dDrop, dAsyncErr⟩
   simp only [Bool.and_eq_true, Bool.or_eq_true, decide_eq_true_eq, bne_iff_ne, ne_eq] at *))
 
 /-! record-level preservation, one lemma per rewriting function -/
@@ -327,7 +328,7 @@ theorem scnt_decInflight (w : Sender) (hi : SCnt w) (he : w.pc = .decided) : SCn
 theorem scnt_xmit (w : Sender) (hi : SCnt w) (e2 : 8 ≤ w.pc.rank) (n : Nat) : SCnt { w with acked := w.acked + n } := by
   rec_cases w; cases pc <;> simp [Pc.rank] at e2 <;> scnt_fin
 theorem scnt_finish (w : Sender) (hi : SCnt w) (e2 : 8 ≤ w.pc.rank) (e3 : w.done = none) (r : WRes)
-    (hr : r ≠ .closed ∧ r ≠ .notSelected) : SCnt { w with done := some r } := by
+    (hr : r ≠ .closed ∧ r ≠ .notSelected) (b : Bool) : SCnt { w with done := some r, late := b } := by
   rec_cases w; subst e3; cases pc <;> simp [Pc.rank] at e2 <;> scnt_fin
 
 theorem scnt_touched (c : Cfg) (a : Action) (he : enabled c a = true) (h : ∀ j, SCnt (c.s j)) (h3 : EngOk c) (i : Nat) (w : Sender)
@@ -344,7 +345,7 @@ theorem scnt_touched (c : Cfg) (a : Action) (he : enabled c a = true) (h : ∀ j
     cases hq : (c.g g).eng <;> simp only [hq, Bool.false_eq_true] at he
     obtain ⟨e1, e2, e3⟩ := eng_req_facts c g h3 _ hq
     simp only [Eng.req, Option.getD_some]
-    exact scnt_finish _ (h _) e2 e3 r (by cases r <;> simp [finishOk] at he <;> simp)
+    exact scnt_finish _ (h _) e2 e3 r (by cases r <;> simp [finishOk] at he <;> simp) _
   case ctxCancel i => exact scnt_cancel _ (h i)
   case begin i k n => exact scnt_begin _ (h i) he.1 k n
   case pin i => exact scnt_pin _ (h i) he _
@@ -354,7 +355,7 @@ theorem scnt_touched (c : Cfg) (a : Action) (he : enabled c a = true) (h : ∀ j
   case check i => exact scnt_check _ (h i) he _ (checkRes_cases c _)
   case load i => exact scnt_load _ (h i) he _
   case take i => exact scnt_take _ (h i) he.1
-  case bail i => exact scnt_bail _ (h i) he.1
+  case bail i => exact scnt_bail _ (h i) (he.1.elim Or.inl (fun x => Or.inr x.1))
   case result i => exact scnt_result _ (h i) he.1 he.2
   case unlock i => exact scnt_unlock _ (h i) he
   case incInflight i => exact scnt_incInflight _ (h i) he
@@ -473,20 +474,34 @@ def SOut (w : Sender) : Prop :=
     (w.wres = some .ok ∧ w.kind = .ff ∧ w.out = some .sent) ∨
     (w.wres = some .ok ∧ w.kind = .sync ∧ (w.out = some .reply ∨ w.out = some .timeout ∨ w.out = some .closed ∨ w.out = some .ctx))) ∧
   (w.wres = some .notSelected → w.gs = none) ∧
-  (w.gs.isSome = true → 9 ≤ w.pc.rank → w.wres.isSome = true)
+  (w.gs.isSome = true → 9 ≤ w.pc.rank → w.wres.isSome = true) ∧
+  (w.late = true → w.wres = some .closed ∧ w.done.isSome = true) ∧
+  (∀ r, w.done = some r → w.late = false → (w.pc = .handed ∧ w.wres = none) ∨ w.wres = some r)
 
 macro "sout_fin" : tactic => `(tactic| (
   simp only [SOut, SCnt, SLoc, Sender.wcounted, Sender.afterPin, Sender.afterGate, Sender.afterEnqueue, Sender.failWith, Sender.afterCheck,
     Sender.afterLoad, Sender.afterUnlock, Sender.afterDecide, Sender.finish] at *
   (repeat' split) <;> (try subst_vars) <;> (simp_all [Pc.rank, b2n, WRes.counted, WRes.outcome]) <;> grind))
 
+theorem sout_finish (w : Sender) (hi : SOut w) (hci : SCnt w) (e2 : 8 ≤ w.pc.rank) (e3 : w.done = none) (egs : w.gs.isSome = true)
+    (r : WRes) (hr : r ≠ .closed ∧ r ≠ .notSelected) : SOut { w with done := some r, late := decide (w.pc ≠ .handed) } := by
+  rec_cases w
+  subst e3
+  cases gs <;> simp at egs
+  cases pc <;> simp [Pc.rank] at e2 <;> cases wres <;> (try (rename_i r'; cases r')) <;> sout_fin
+
 theorem sout_touched (c : Cfg) (a : Action) (he : enabled c a = true) (h : ∀ j, SOut (c.s j)) (hc : ∀ j, SCnt (c.s j))
-    (hl : ∀ j, SLoc (c.s j)) (i : Nat) (w : Sender) (ht : touched c a = some (i, w)) : SOut w := by
+    (hl : ∀ j, SLoc (c.s j)) (h3 : EngOk c) (i : Nat) (w : Sender) (ht : touched c a = some (i, w)) : SOut w := by
   cases a <;> simp only [touched, reduceCtorEq, Option.some.injEq, Prod.mk.injEq] at ht
   all_goals (obtain ⟨rfl, rfl⟩ := ht)
   all_goals (simp only [enabled, Bool.and_eq_true, Bool.or_eq_true, decide_eq_true_eq, bne_iff_ne, ne_eq] at he)
   case xmit g ak => have hi := h ((c.g g).eng.req.getD 0); clear h hc hl; generalize c.s _ = w at *; rec_cases w; sout_fin
-  case finish g r => have hi := h ((c.g g).eng.req.getD 0); clear h hc hl; generalize c.s _ = w at *; rec_cases w; sout_fin
+  case finish g r =>
+    cases hq : (c.g g).eng <;> simp only [hq, Bool.false_eq_true] at he
+    obtain ⟨e1, e2, e3⟩ := eng_req_facts c g h3 _ hq
+    have egs := (h3 g _ (by rw [hq]; rfl)).1
+    simp only [Eng.req, Option.getD_some]
+    exact sout_finish _ (h _) (hc _) e2 e3 (by rw [egs]; rfl) r (by cases r <;> simp [finishOk] at he <;> simp)
   case check i =>
     have hi := h i; have hci := hc i; have hli := hl i; clear h hc hl
     have hcr := checkRes_cases c (c.s i).ep
@@ -513,16 +528,25 @@ theorem sout_touched (c : Cfg) (a : Action) (he : enabled c a = true) (h : ∀ j
     have hi := (h i).2.2
     have hg := (hl i).1
     rw [he.1] at hg
-    refine ⟨by simp, by simp, ?_, ?_⟩
+    have hd := (hl i).2.2.2
+    rw [he.1] at hd
+    refine ⟨by simp, by simp, ?_, ?_, ?_, ?_⟩
     · simpa using hi.1
     · simp [hg (by simp [Pc.rank])]
+    · simpa using hi.2.2.1
+    · simp [hd (by simp [Pc.rank])]
   case pin i => have hi := h i; have hci := hc i; have hli := hl i; clear h hc hl; generalize c.s i = w at *; rec_cases w; subst he; generalize c.cur = b at *; cases b <;> sout_fin
   case gate i =>
     have hi := h i; have hci := hc i; have hli := hl i; clear h hc hl; generalize c.s i = w at *; rec_cases w; subst he
     have h1 := hci.1 (by simp [Pc.rank])
+    have hlate := hi.2.2.2.2.1
+    have hdn := hli.2.2.2 (by simp [Pc.rank])
     clear hi hci
-    simp only at h1
+    simp only at h1 hlate hdn
     subst h1
+    subst hdn
+    have hl0 : late = false := by cases late <;> simp_all
+    subst hl0
     generalize c.selected = b
     have hg := hli.1 (by simp [Pc.rank])
     simp only at hg
@@ -540,14 +564,16 @@ theorem sout_touched (c : Cfg) (a : Action) (he : enabled c a = true) (h : ∀ j
   case take i => have hi := h i; have hci := hc i; have hli := hl i; clear h hc hl; generalize c.s i = w at *; rec_cases w; obtain ⟨he, _⟩ := he; subst he; sout_fin
   case bail i =>
     have hi := h i; have hci := hc i; have hli := hl i; clear h hc hl; generalize c.s i = w at *; rec_cases w
-    obtain ⟨he | he, _⟩ := he <;> subst he <;> sout_fin
+    obtain ⟨he | ⟨he, hdn⟩, _⟩ := he
+    · subst he; sout_fin
+    · subst he; cases done <;> simp at hdn; sout_fin
   case incInflight i => have hi := h i; have hci := hc i; have hli := hl i; clear h hc hl; generalize c.s i = w at *; rec_cases w; subst he; sout_fin
   case decide i ch => have hi := h i; have hci := hc i; have hli := hl i; clear h hc hl; generalize c.s i = w at *; rec_cases w; obtain ⟨he, _⟩ := he; subst he; cases ch <;> sout_fin
   case decInflight i => have hi := h i; have hci := hc i; have hli := hl i; clear h hc hl; generalize c.s i = w at *; rec_cases w; subst he; sout_fin
 
 theorem sout_apply (c : Cfg) (a : Action) (he : enabled c a = true) (h : ∀ j, SOut (c.s j)) (hc : ∀ j, SCnt (c.s j))
-    (hl : ∀ j, SLoc (c.s j)) : ∀ j, SOut ((apply c a).s j) :=
-  sender_step c a h (sout_touched c a he h hc hl)
+    (hl : ∀ j, SLoc (c.s j)) (h3 : EngOk c) : ∀ j, SOut ((apply c a).s j) :=
+  sender_step c a h (sout_touched c a he h hc hl h3)
 
 /-- a connection-closed answer given after the hand-off stage was reached came from the `genDone` branch: that generation's
     teardown broadcast had been closed; and an engine report exists only for a request that was handed off -/
@@ -599,7 +625,7 @@ theorem cinv_step (c : Cfg) (a : Action) (h : CInv c) : CInv (step c a) :=
       ack := ackOk_apply c a he h.scnt h.sloc h.eng h.ack
       log := logOk_apply c a he h.log
       ledger := ledgerOk_apply c a he h.toInv h.started h.scnt h.ledger
-      sout := sout_apply c a he h.sout h.scnt h.sloc
+      sout := sout_apply c a he h.sout h.scnt h.sloc h.eng
       bail := bailOk_apply c a he h.sloc h.scnt h.eng h.bail }
 
 theorem cinv_reachable {c : Cfg} (hr : Reachable c) : CInv c := reachable_of_inv cinv_init cinv_step hr
